@@ -4,9 +4,9 @@ package main
 
 import (
 	"fmt"
-	"math/big"
 	"go/token"
 	"go/types"
+	"math/big"
 	"sort"
 	"strings"
 
@@ -45,6 +45,7 @@ type PtrV struct {
 	typ    types.Type // type of root content
 	path   []int
 	nonNil bool
+	arrIdx Term // element of an array value held in a local/global cell
 }
 
 func (p *PtrV) pointee() types.Type {
@@ -99,31 +100,32 @@ type Frame struct {
 }
 
 type X struct {
-	prog     *ssa.Program
-	vc       *VC
-	enc      *Enc
-	db       *ContractDB
-	top      *ssa.Function
-	topC     *Contract
-	frameSeq int
-	keys     map[string]keyInfo
-	closures map[string]*ClosV
-	funcIDs  map[*ssa.Function]Term
-	pure     int
-	entry    *State
-	oldStack []*State
-	props    []string
-	module   string
-	inlined  map[string]bool
-	havoced  map[string]bool
-	sentinel *sentinels
-	stats    struct{ instrs int }
-	curPos   token.Pos
+	externGlobal   int
+	prog           *ssa.Program
+	vc             *VC
+	enc            *Enc
+	db             *ContractDB
+	top            *ssa.Function
+	topC           *Contract
+	frameSeq       int
+	keys           map[string]keyInfo
+	closures       map[string]*ClosV
+	funcIDs        map[*ssa.Function]Term
+	pure           int
+	entry          *State
+	oldStack       []*State
+	props          []string
+	module         string
+	inlined        map[string]bool
+	havoced        map[string]bool
+	sentinel       *sentinels
+	stats          struct{ instrs int }
+	curPos         token.Pos
 	ghostDeferKeys []string
-	nilChecked map[string]bool
-	callSiteEnv *specEnv
-	bound []string
-	callSeq map[string]int
+	nilChecked     map[string]bool
+	callSiteEnv    *specEnv
+	bound          []string
+	callSeq        map[string]int
 }
 
 const maxInlineDepth = 6
